@@ -2,10 +2,12 @@ module verif/harness
 
 go 1.23.4
 
-require github.com/siyul-park/uniflow v0.0.0
+require (
+	github.com/gofrs/uuid v4.4.0+incompatible
+	github.com/siyul-park/uniflow v0.0.0
+)
 
 require (
-	github.com/gofrs/uuid v4.4.0+incompatible // indirect
 	github.com/google/btree v1.1.3 // indirect
 	github.com/iancoleman/strcase v0.3.0 // indirect
 	github.com/pkg/errors v0.9.1 // indirect
